@@ -53,9 +53,37 @@ def cases(rng, tier):
             case["deref"] = False
             case["target"] = "path"
         out.append(case)
+    # sessions that add nothing with a stream (a directory, an empty tree) between sessions that do (fourth hunt)
+    for i in range(6 if tier == "quick" else 60):
+        out.append({"kind": "dir-session", "chains": [rng.choice(["LZMA2", "COPY", "ZSTD", "BZIP2"]) for _ in range(3)], "header": rng.choice(HEADERS[:2]), "pos": i % 3, "seed": rng.getrandbits(30)})
     if tier == "thorough":
         out.append({"kind": "testsuite"})
     return out
+
+
+def _run_dir_session(case, viol, obs):
+    import py7zr
+
+    filt = {"LZMA2": [{"id": py7zr.FILTER_LZMA2, "preset": 1}], "COPY": [{"id": py7zr.FILTER_COPY}], "ZSTD": [{"id": py7zr.FILTER_ZSTD, "level": 1}], "BZIP2": [{"id": py7zr.FILTER_BZIP2}]}
+    model = []
+    with pz.scratch("vf-c07d-") as d:
+        path = os.path.join(d, "t.7z")
+        os.mkdir(os.path.join(d, "somedir"))
+        for si in range(3):
+            with py7zr.SevenZipFile(path, "w" if si == 0 else "a", filters=filt[case["chains"][si]]) as z:
+                if case["header"] == "raw":
+                    z.set_encoded_header_mode(False)
+                if si == case["pos"]:
+                    z.write(os.path.join(d, "somedir"), "dir%d" % si)
+                    model.append(("dir%d" % si, "dir", None))
+                else:
+                    blob = (b"session %d " % si) * (si + 3)
+                    z.writestr(blob, "s%d.txt" % si)
+                    model.append(("s%d.txt" % si, "file", blob))
+            with open(path, "rb") as f:
+                data = f.read()
+            validate(data, None, model, viol, obs, "session %d of 3 (%s; the session at position %d adds only a directory)" % (si, case["chains"][si], case["pos"]))
+            obs["sessions"] = obs.get("sessions", 0) + 1
 
 
 def _run_testsuite(viol, obs):
@@ -130,6 +158,11 @@ def validate(data, password, model, viol, obs, tag):
     for f in arc.findings:
         code, _, text = f.partition("| ")
         viol.append({"key": "structure/" + code, "what": "%s: %s" % (tag, text[:300])})
+    if arc.streams is not None:
+        for fi, f_ in enumerate(arc.streams.folders):
+            if f_.num_substreams == 0:
+                # a folder of the writer's own making that holds no member: its packed stream belongs to nobody (and other readers stop there)
+                viol.append({"key": "structure/folder-without-members", "what": "%s: folder %d of %d has no substreams (packed sizes %r)" % (tag, fi, len(arc.streams.folders), arc.streams.pack_sizes)})
     rn = arc.names()
     mn = [m[0] for m in model]
     if rn != mn:
@@ -169,6 +202,14 @@ def run_case(case):
                 seen.setdefault(v["key"], v)
             return K.result("violated", violations=list(seen.values()), cell="testsuite", obs=obs)
         return K.result("held", cell="testsuite", obs=obs, sample={"kind": "repository test suite under the reference-reader plugin", "archives": obs.get("testsuite_archives_validated")})
+    if case.get("kind") == "dir-session":
+        _run_dir_session(case, viol, obs)
+        if viol:
+            seen = {}
+            for v in viol:
+                seen.setdefault(v["key"], v)
+            return K.result("violated", violations=list(seen.values()), cell="dir-session|%d|%s" % (case["pos"], case["header"]), obs=obs)
+        return K.result("held", cell="dir-session|%d|%s" % (case["pos"], case["header"]), obs=obs, sample={"kind": "session adding only a directory", "position": case["pos"]})
     model = []
     allb = b""
     import py7zr
